@@ -47,12 +47,16 @@ func genIdxCase(r *Rng, d *DataSpec, nq int, depth int, wantGB bool, allowUnknow
 		}
 		c.Queries = append(c.Queries, q)
 	}
+	if (c.Writer == "mem" || c.Writer == "mem2") && len(rows) <= 2000 && r.Chance(1, 5) {
+		c.StaleTmp = true // a leftover of an earlier, interrupted build sits next to the output
+	}
 	return c
 }
 
 var boundarySizes = []int{999, 1000, 1001, 4095, 4096, 4097, 65535, 65536, 65537}
 
 func runC01(rep *Report, r *Rng, tier string) {
+	defer envProbes(rep, "C01", false)
 	rep.Rule = "datasets from DataSpec generator (sizes incl. boundaries; sparse/dense/run/unique distributions; missing columns; empty/trailing-empty rows; ascii/empty/utf8/binary/NUL-in-value strings) x 3 writers x 2 getters x random expression trees (depth<=5, arity 1..4, duplicate operands, absent values, unknown columns); non-trivial = expression with >=2 nodes and a non-zero expected count; distinct by (dataset seed, writer, getter, expression, expected)"
 	o := StartOracle()
 	defer o.Close()
@@ -160,6 +164,7 @@ func runC02(rep *Report, r *Rng, tier string) {
 }
 
 func runC05(rep *Report, r *Rng, tier string) {
+	defer envProbes(rep, "C05", false)
 	rep.Rule = "AddRow sequences x 3 writers x 2 getters x 0..3 close/reopen cycles; compared: AddRow ids, bolt key set + row counter vs model image (xxhash64 in Lean), GetSchema vs model and spec, per-value and per-row probes (group-by over a unique column); non-trivial = probe with non-zero count; distinct by (dataset, writer, query, expected)"
 	o := StartOracle()
 	defer o.Close()
@@ -320,6 +325,8 @@ func c03Family(r *Rng, p *leafPool) []*Ex {
 }
 
 func runC03(rep *Report, r *Rng, tier string) {
+	defer envProbes(rep, "C03", false)
+	defer driverCacheIsolation(rep, r, "C03")
 	rep.Rule = "query histories (<=30 queries) on ONE open index with cache in {none, LRU 0, tiny, a few entries, ample} x {on-demand, preloaded}; every answer compared with the Lean model (cache-free) and with a freshly opened uncached index; histories mix random trees over a 2..5-leaf pool (many shared sub-expressions) with structured families (same leaves re-associated under different operators, duplicated operands, NOT pairs, permutations); plus the cache-key function compared with the model's key (xxhash64 in Lean) on every expression; non-trivial = query at history position >= 1 with non-zero count; distinct by (dataset, cache, history prefix hash, query)"
 	o := StartOracle()
 	defer o.Close()
